@@ -382,4 +382,21 @@ CHECKS = {
         "components": {"real": REAL, "stubs": STUBS},
         "assumptions": ["single-node client front-end only; the retry loops of the standalone, sentinel and cluster front-ends (TRYAGAIN / CLUSTERDOWN) are not exercised yet"],
     },
+    "C26": {
+        "level": "exploration",
+        "rule": ("plans on one RESP3 client: 2-6 tasks with overlapping Receive calls (SUBSCRIBE / PSUBSCRIBE / SSUBSCRIBE over 3 channels and 3 patterns, each with one "
+                 "private marker channel so that its subscribe command is attributable), ended by deadlines, cancellations at seeded steps, (P|S)UNSUBSCRIBE of one "
+                 "channel or of everything by any task, or client.Close; dedicated sessions with SetPubSubHooks; VTAG command traffic on the same connection; 4-19 ghost "
+                 "PUBLISH / SPUBLISH; oracle from the model's push log with per-frame delivery steps: each callback sequence is a gap-free in-order run of the messages the "
+                 "server sent for that subscription on that connection, contains every message sent after the subscribe was acknowledged and delivered before the "
+                 "subscription ended, the return value is nil exactly after a covering unsubscribe / the context error / ErrClosing, hook error channels are closed with "
+                 "at most one error, and command replies obey the C01 oracle; non-trivial = at least one Receive returned; distinct = distinct event-log hash"),
+        "parts": [
+            {"module": "rueidis", "scenario": "pubsub", "quick": 8000, "thorough": 600000},
+        ],
+        "expected_probes": ["messages-delivered", "receive-ended-by-unsubscribe", "pubsub-hooks-session"],
+        "components": {"real": REAL, "stubs": STUBS},
+        "assumptions": ["RESP3 only (the RESP2 side connection holds a mutex across its handshake, see DESIGN.md); re-subscription after connection loss is not exercised: no connection faults in this scenario",
+                        "a Receive ended by its deadline is only required to have got the messages delivered at least two scheduler steps before it returned"],
+    },
 }
